@@ -34,7 +34,11 @@ def gen_sequence(rng, length):
             i = rng.randrange(nvals)
             return (i, rng.random() < 0.3)
         k = rng.random()
-        if k < 0.35:
+        if k < 0.08:
+            # a single-child read-only disjunction under one of two names (the same name for different children: the
+            # builder keeps a name alias per node, never per name)
+            seq.append(("or", [ref()], True, "m%d" % rng.randrange(2)))
+        elif k < 0.35:
             seq.append(("and", [ref() for _ in range(rng.randint(1, 3))], rng.random() < 0.3))
         elif k < 0.65:
             if mutable and rng.random() < 0.3:
@@ -114,10 +118,10 @@ def run_sequence(payload):
                 atom_keys[op[1]] = k
                 model.append(("atom", op[1]))
             elif op[0] == "and":
-                k = f.add_and([key_of(r) for r in op[1]], name=Term("n%d" % step) if op[2] else None)
+                k = f.add_and([key_of(r) for r in op[1]], name=Term("n%d" % (step % 4)) if op[2] else None)
                 model.append(("and", list(op[1])))
             elif op[0] == "or":
-                k = f.add_or([key_of(r) for r in op[1]], readonly=op[2], name=Term("n%d" % step) if op[3] else None)
+                k = f.add_or([key_of(r) for r in op[1]], readonly=op[2], name=(Term(op[3]) if isinstance(op[3], str) else Term("n%d" % (step % 4))) if op[3] else None)
                 model.append(("or", list(op[1])))
             elif op[0] == "disjunct":
                 target = keys[op[1]]
